@@ -1543,6 +1543,10 @@ func (s *Server) sendLWT(cl *Client) {
 	}
 
 	modifiedLWT := s.hooks.OnWill(cl, cl.Properties.Will)
+	if !IsValidFilter(modifiedLWT.TopicName, true) || !s.hooks.OnACLCheck(cl, modifiedLWT.TopicName, true) {
+		atomic.StoreUint32(&cl.Properties.Will.Flag, 0) // the client may not publish to this topic, and neither may its will
+		return
+	}
 
 	pk := packets.Packet{
 		FixedHeader: packets.FixedHeader{
